@@ -531,4 +531,24 @@ func c12Run(c *core.Ctx) {
 		r.Case("bandwidth", bc)
 		r.Try(func() { c12Bandwidth(bc, r) })
 	}
+	// bandwidth rules on every multiset of size 4..9 over {0,0.3,1,2.5} and over
+	// {1,5,9}: heavy ties, including samples whose quartiles coincide (IQR = 0)
+	// while the standard deviation does not vanish
+	for _, alpha := range [][]float64{{0, 0.3, 1, 2.5}, {1, 5, 9}} {
+		for size := 4; size <= 9; size++ {
+			enum.Multisets(size, len(alpha), func(ms []int) {
+				if !c.Mine() {
+					return
+				}
+				xs := make([]float64, 0, size)
+				for _, k := range ms {
+					xs = append(xs, alpha[k])
+				}
+				bc.Xs = riffle(xs)
+				r.Case("bandwidth", bc)
+				r.Try(func() { c12Bandwidth(bc, r) })
+			})
+		}
+	}
+	r.Bound("bandwidth", "the KDE samples plus every multiset of size 4..9 over {0,0.3,1,2.5} and {1,5,9}")
 }
